@@ -67,6 +67,14 @@ theorem set_remove_spec {R : Nat} (hR : 0 < R) (m : Map) (k : Nat) (o : Orc) (h 
   · rw [hret]; unfold reprOf; cases absOf m k <;> simp
   · intro e he; rw [hretd, he]
 
+/-- `remove` / `take` of the LAST element parked in the old table release that table in the same call (C03 for sets:
+    this is what distinguishes them from `retain`) -/
+theorem set_remove_releases {R : Nat} (hR : 0 < R) (m : Map) (k : Nat) (o : Orc) (h : Inv R m)
+    (ol : Old) (hlo : m.lo = some ol) (hin : ∃ x, x ∈ ol.ents ∧ x.k = k) (hlast : ol.ents.length = 1) :
+    ∃ m' out, SetOps.remove m k o = .ok (m', out) ∧ m'.lo = none ∧ out.cost.frees = 1 := by
+  obtain ⟨m', out, hr, _, _, _, _, _, _, _, _, hrel⟩ := Map.removeEntry_spec hR m k o h
+  exact ⟨m', out, hr, (hrel ol hlo hin hlast).1, (hrel ol hlo hin hlast).2⟩
+
 theorem set_get_spec {R : Nat} (m : Map) (k : Nat) (h : Inv R m) :
     (SetOps.get m k).ret = .optKV (absOf m k) := by
   unfold SetOps.get Map.get
@@ -96,6 +104,25 @@ theorem set_get_or_insert_inv (c : Cfg) (hR : 0 < c.R) (m : Map) (k kid : Nat) (
   apply C12.one_element_per_key c hR true 1 m k 0 _ o h
   simp only [C12.chainApplicable, Applicable, and_true]
   cases Map.lookupState true m k 0 <;> exact ⟨by simp, fun _ _ _ _ => trivial⟩
+
+/-- **`replace(v)` on a value that is there** exchanges its representative — the stored object is handed back, the
+    argument takes its place — and touches nothing else: both tables, every counter and every other element stay -/
+theorem set_replace_occupied (c : Cfg) (m : Map) (k kid : Nat) (o : Orc) {R : Nat} (h : Inv R m)
+    {loc : Loc} {e : Entry} (hf : m.find k = some (loc, e)) :
+    ∃ out, SetOps.replace c m k kid o = .ok (Map.setKidAt m loc kid, out) ∧
+      out.returned = [e.kid] ∧ out.cost.dropped = [] ∧ out.cost.moved = 0 ∧ out.cost.allocs = 0 ∧
+      Inv R (Map.setKidAt m loc kid) ∧ SetOps.repr (Map.setKidAt m loc kid) k = some kid := by
+  have hv := valueAt_of_find h hf
+  obtain ⟨hi, hf'⟩ := setKidAt_spec h hf kid
+  unfold SetOps.replace
+  simp only [hf]
+  unfold Map.entryChain Map.lookupState
+  simp only [hf, Map.chainLoop, Map.chainStep, hv, Bool.false_eq_true, if_false]
+  refine ⟨_, rfl, rfl, ?_, rfl, rfl, hi, ?_⟩
+  · simp
+  · unfold SetOps.repr
+    rw [hf']
+    rfl
 
 /-- non-vacuity: `insert` of a value that is there keeps object 10 and drops the argument 20; `replace` stores 30
     and hands 10 back; `get_or_insert` of an absent value stores its argument -/
